@@ -182,6 +182,11 @@ CHECKS.update({
         "note": TRUST + " Histories of <= 3-4 calls exhaustive over a 28-node expression menu, longer ones sampled.",
         "technique": "TLA+ model of the walker mechanism checked by TLC + trace validation of TLC-enumerated call histories replayed on shared vs fresh environments",
     },
+    "C37": {
+        "text": "MASem.tla extends the sequential semantics (UPSeqSem, unchanged) with multi-agent scoping (own fluent, environment fluent, Dot(agent, fluent)) and a pure-renaming flattening of a MultiAgentProblem. For generated multi-agent problems the real MAConditionalEffectsRemover / MADisjunctiveConditionsRemover are run, original and compiled problem are transcribed (not flattened by Python), map_back_action_instance is tabulated for every compiled ground action, and TLC judges in EVERY total state over the compiled ground fluents: a compiled variant is applicable only where its original action is, some variant is applicable where the original action is (and changes the state), successors agree on the original fluents, at most one variant (conditional effects), auxiliary fake-goal actions touch no original fluent, goals are equivalent up to auxiliary steps, initial states agree, no dangling fluent reference in compiled actions or goals.",
+        "note": TRUST + " Problems with at most 8 ground fluents (+2 auxiliary), all total states up to a cap per compilation; the MA-PDDL writer is not part of the check.",
+        "technique": "TLA+ specification of multi-agent action semantics (TLC) judging, state by state, compilations produced by the real multi-agent compilers",
+    },
 })
 
 NOT_APPLICABLE = {}
